@@ -66,3 +66,39 @@ Definition bump_target (W : world) (s : sys) (o : rop) : option nat :=
   | OUnsubscribe m req p v => changed_gen s m (fun g => unsubscribe W g req p v)
   | _ => None
   end.
+
+(* ------------------------------------------------------------------ mixed registry graphs
+   Histories over registries of BOTH flavours.  [fls] lists the flavours of the existing
+   registries.  A push registry (AdapterRegistry) may only have push bases: its _setBases calls
+   ``base._addSubregistry(self)``, which VerifyingAdapterRegistry does not have (AttributeError
+   in the real code); a verifying registry may have bases of either flavour (the persistent
+   site manager over the global registry).  [wf_op fl n] above is the homogeneous special case. *)
+Definition fl_at (fls : list flavour) (b : nat) : flavour := nth b fls Push.
+Definition is_push (f : flavour) : bool := match f with Push => true | Verifying => false end.
+Definition push_bases_ok (fls : list flavour) (f : flavour) (bs : list nat) : bool :=
+  match f with Push => forallb (fun b => is_push (fl_at fls b)) bs | Verifying => true end.
+
+Definition mwf_op (fls : list flavour) (o : rop) : bool :=
+  let n := length fls in
+  match o with
+  | ONewReg f bs => forallb (fun b => Nat.ltb b n) bs && push_bases_ok fls f bs
+  | OSetRegBases r bs => Nat.ltb r n && forallb (fun b => Nat.ltb b r) bs && push_bases_ok fls (fl_at fls r) bs
+  | ORebuild r
+  | ORegister r _ _ _ _ | OUnregister r _ _ _ _ | OSubscribe r _ _ _ | OUnsubscribe r _ _ _
+  | QLookup r _ _ _ | QLookup1 r _ _ _ | QLookupAll r _ _ | QNames r _ _ | QSubscriptions r _ _
+  | QRegistered r _ _ _ | QSubscribed r _ _ _ | QAllRegistrations r | QAllSubscriptions r
+  | QQueryAdapter r _ _ _ | QAdapterHook r _ _ _ | QQueryMultiAdapter r _ _ _ | QSubscribers r _ _ =>
+      Nat.ltb r n
+  end.
+
+Definition fls_after (fls : list flavour) (o : rop) : list flavour :=
+  match o with ONewReg f _ => fls ++ [f] | _ => fls end.
+
+Fixpoint mwf_hist (fls : list flavour) (ops : list rop) : bool :=
+  match ops with
+  | [] => true
+  | o :: ops' => mwf_op fls o && mwf_hist (fls_after fls o) ops'
+  end.
+
+(* the flavours of the registries of a system *)
+Definition flavours (s : sys) : list flavour := map rs_flavour s.
